@@ -128,6 +128,64 @@ def check(rep: Report, ctx: Ctx) -> None:
             raise AnalysisError(f"{fi.qualname}: yield of "
                                 f"'{unparse(v)[:40]}' outside vocabulary")
 
+    # ---- R13.10 --------------------------------------------------------------
+    rep.rule("R13.10", "the span is built from the record the jq program "
+             "produced, untouched (absent values stay null, present values - "
+             "an empty string included - stay what they are)", 3)
+    star = [k.value for k in c.keywords if k.arg is None]
+    src_ok, how = False, f"OTelEvent({unparse(c)[10:60]})"
+    tgt = rec_loop.target if isinstance(rec_loop, ast.For) else None
+    if len(star) == 1 and not c.args and len(c.keywords) == 1 and \
+            isinstance(tgt, ast.Name):
+        v = ctx.reach(fi).resolve(star[0], at=c)
+        src_ok = isinstance(v, ast.Name) and v.id == tgt.id and len(
+            [b for b in ctx.defs(fi).of(tgt.id)]) == 1
+        how = (f"OTelEvent(**{unparse(star[0])}) with '{unparse(v)[:40]}' "
+               f"bound by the record loop")
+    rep.ob("R13.10", "the constructor receives the loop's record itself",
+           src_ok, fi=fi, node=c, detail=how + ("" if src_ok else
+           " -- the record is rebuilt / filtered / re-bound between the jq "
+           "program and the span model"))
+    from .effspec import mutated_locals
+    mut = mutated_locals(fi, star[0]) if star else []
+    if isinstance(tgt, ast.Name):
+        mut += [m for m in mutated_locals(fi, tgt) if m not in mut]
+        # del record[k] / record.pop(k) / setdefault are mutators as well
+        for st in ast.walk(fi.node):
+            if isinstance(st, ast.Delete) and any(
+                    isinstance(t_, ast.Subscript) and isinstance(
+                        t_.value, ast.Name) and t_.value.id == tgt.id
+                    for t_ in st.targets):
+                mut.append((tgt.id, st))
+    rep.ob("R13.10", "the record is not modified in place", not mut, fi=fi,
+           node=mut[0][1] if mut else c,
+           detail=("; ".join(f"'{unparse(m)[:60]}'" for _, m in mut)
+                   + " changes what the jq program extracted before the "
+                   "span is built") if mut else
+           "no item store / mutator call / del on the record")
+
+    gen = ctx.func("generate_records_from_compiled_jq")
+    rep.funcs_seen.add(gen.qualname)
+    gl = [l for l in ast.walk(gen.node) if isinstance(l, ast.For)]
+    gy = [y for y in ast.walk(gen.node)
+          if isinstance(y, (ast.Yield, ast.YieldFrom))]
+    g_ok = len(gl) == 1 and isinstance(gl[0].target, ast.Name) and bool(gy)
+    if g_ok:
+        it = ctx.defs(gen).resolve_deep(gl[0].iter)
+        g_ok = any(isinstance(x, ast.Call) and call_name(x) == "input_value"
+                   and x.args and isinstance(x.args[0], ast.Name)
+                   and x.args[0].id == gen.params()[0]
+                   for x in ast.walk(it)) and all(
+            isinstance(y.value, ast.Name) and y.value.id == gl[0].target.id
+            for y in gy) and not mutated_locals(gen, gl[0].target) and not \
+            any(isinstance(x, (ast.Break, ast.Return)) for x in
+                ast.walk(gl[0]))
+    rep.ob("R13.10", "the record generator hands out every output of the jq "
+           "program as it is (a list output element by element)", g_ok,
+           fi=gen, node=gl[0] if gl else gen.node,
+           detail="for record in iter(compiled_jq.input_value(input_data)): "
+                  "yield from record / yield record")
+
     # ---- R13.2 ---------------------------------------------------------------
     rep.rule("R13.2", "the three field tables agree", 4)
     ev = ctx.index.cls("OTelEvent")
